@@ -17,7 +17,8 @@ def sh(cmd, cwd, timeout=900):
 
 def main():
     pid, var = sys.argv[1], sys.argv[2]
-    wt, src = f"/tmp/wt/{pid}", f"/tmp/wtout/{pid}/{var}"
+    wt, src = f"/tmp/wt/{pid}", os.environ.get("SEED_SRC", "/tmp/wtout") + f"/{pid}/{var}"
+    tag = os.environ.get("SEED_TAG", "")
     res = {"property": pid, "variant": var}
     def clean():
         sh("git checkout -- . && git clean -fdq", wt)
@@ -88,10 +89,12 @@ def main():
     res["confirmed"] = bool(ok)
     print(json.dumps({k: v for k, v in res.items() if k != "demo_with_change_tail"}, indent=1))
     if ok:
-        dst = f"/verif/seeded/{pid}-{var}"
+        dst = f"/verif/seeded/{pid}-{tag}{var}"
         shutil.rmtree(dst, ignore_errors=True)
         os.makedirs(dst)
         for f in os.listdir(src):
+            if f.endswith(".log"):
+                continue
             if os.path.isdir(os.path.join(src, f)):
                 shutil.copytree(os.path.join(src, f), os.path.join(dst, f))
             else:
